@@ -210,7 +210,7 @@ RetOutcome(s) == IF s.taskRes \notin {"none", "ok", "cancelled"} THEN "exc:" \o 
 Return ==
   /\ S.caller.phase = "blocked" /\ S.blocking
   /\ S' = [S EXCEPT !.caller = [phase |-> "idle", op |-> ""]]
-  /\ obs' = <<Ev("ret", S.caller.op, RetOutcome(S), S.st, "", IF RetOutcome(S) = "ok" THEN S.uids ELSE 0,
+  /\ obs' = <<Ev("ret", S.caller.op, RetOutcome(S), S.st, IF S.deferred THEN "D" ELSE "", IF RetOutcome(S) = "ok" THEN S.uids ELSE 0,
                  IF S.cacheOn THEN 1 ELSE 0)>>
 
 \* RE.resume(): 992-1023 (runs on the main thread while the run task is parked at the paused park)
@@ -573,7 +573,7 @@ Exec(d) ==
        [] c = "checkpoint" ->
             /\ d = "ok"
             /\ IF \E k \in OpenKeysOf(s0.runs) : s0.runs[k].bundling THEN S' = Done(s0, IMS) /\ obs' = hook
-               ELSE LET s1 == ResetCkpt(s0) IN
+               ELSE LET s1 == ResetCkpt([s0 EXCEPT !.cacheOn = TRUE, !.cache = IF s0.cacheOn THEN @ ELSE <<>>]) IN   \* a checkpoint ends a non-resumable section
                     IF s1.deferred THEN S' = Block(s1, "ckpt_sleep", "", {}) /\ obs' = hook
                     ELSE S' = Done(s1, Val(None)) /\ obs' = hook
        [] c = "clear_checkpoint" ->
